@@ -1,0 +1,23 @@
+//go:build verif
+
+package certmagic
+
+// Verification hooks (build tag "verif" only): thin exported wrappers around the
+// unexported storage-key helpers. No existing code is changed.
+
+// VerifLockFilename exposes FileStorage.lockFilename.
+func VerifLockFilename(s *FileStorage, name string) string { return s.lockFilename(name) }
+
+// VerifIssuerKey exposes ACMEIssuer.issuerKey.
+func VerifIssuerKey(ca string) string { return (*ACMEIssuer)(nil).issuerKey(ca) }
+
+// VerifUserKeys exposes the account storage keys for a CA URL and e-mail.
+func VerifUserKeys(ca, email string) (prefix, reg, key string) {
+	am := new(ACMEIssuer)
+	return am.storageKeyUserPrefix(ca, email), am.storageKeyUserReg(ca, email), am.storageKeyUserPrivateKey(ca, email)
+}
+
+// VerifChallengeTokensKey exposes distributedSolver.challengeTokensKey for an issuer key.
+func VerifChallengeTokensKey(issuerKey, domain string) string {
+	return distributedSolver{storageKeyIssuerPrefix: storageKeyACMECAPrefix(issuerKey)}.challengeTokensKey(domain)
+}
